@@ -18,6 +18,11 @@ func canonGate(p *ana.Prog, fn *ssa.Function, want string) *ana.Gate {
 		if !isCmp {
 			return false, false
 		}
+		// the rational normal form only stands for the Go comparison when its integer
+		// arithmetic cannot wrap around (2*x > y is not x > y/2 for x >= 2^62)
+		if ana.LinearMayWrap(c.X) || ana.LinearMayWrap(c.Y) {
+			return false, false
+		}
 		if s, ok := ana.CanonCmp(c, true); ok && s == want {
 			return true, true
 		}
